@@ -106,6 +106,143 @@ impl WriteVolatile for Scripted {
     }
 }
 
+
+/// The crate's own in-memory adapters as stream endpoints: `&[u8]`, `Cursor<&[u8]>`, `Cursor<Vec<u8>>`
+/// as readers; `&mut [u8]`, `Vec<u8>`, `Cursor<&mut [u8]>` as writers. Every method (including the
+/// exact forms, which these adapters override) is forwarded to the adapter itself.
+pub struct MemEp {
+    pub kind: u8,
+    data: Vec<u8>,
+    rd: &'static [u8],
+    cur: std::io::Cursor<&'static [u8]>,
+    curv: std::io::Cursor<Vec<u8>>,
+    sink: Vec<u8>,
+    sink2: Vec<u8>,
+    wr: &'static mut [u8],
+    vec: Vec<u8>,
+    curw: std::io::Cursor<&'static mut [u8]>,
+    /// calls made with a non-empty buffer
+    pub ncalls: usize,
+}
+
+impl MemEp {
+    pub fn new(kind: u8, total: usize) -> Box<MemEp> {
+        let data: Vec<u8> = (0..total).map(stream_byte).collect();
+        let mut sink = vec![0u8; total];
+        let mut sink2 = vec![0u8; total];
+        // SAFETY: the slices point into heap buffers owned by the same box and never reallocated.
+        let rd: &'static [u8] = unsafe { std::slice::from_raw_parts(data.as_ptr(), data.len()) };
+        let wr: &'static mut [u8] = unsafe { std::slice::from_raw_parts_mut(sink.as_mut_ptr(), sink.len()) };
+        let w2: &'static mut [u8] = unsafe { std::slice::from_raw_parts_mut(sink2.as_mut_ptr(), sink2.len()) };
+        Box::new(MemEp { kind: kind % 3, rd, cur: std::io::Cursor::new(rd), curv: std::io::Cursor::new(data.clone()), data, sink, sink2, wr, vec: Vec::new(), curw: std::io::Cursor::new(w2), ncalls: 0 })
+    }
+    pub fn name(&self, read: bool) -> &'static str {
+        match (read, self.kind) {
+            (true, 0) => "&[u8]",
+            (true, 1) => "Cursor<&[u8]>",
+            (true, _) => "Cursor<Vec<u8>>",
+            (false, 0) => "&mut [u8]",
+            (false, 1) => "Vec<u8>",
+            (false, _) => "Cursor<&mut [u8]>",
+        }
+    }
+    /// bytes the reader no longer holds
+    pub fn consumed(&self) -> usize {
+        match self.kind {
+            0 => self.data.len() - self.rd.len(),
+            1 => (self.cur.position() as usize).min(self.data.len()),
+            _ => (self.curv.position() as usize).min(self.data.len()),
+        }
+    }
+    /// bytes the writer accepted, in order
+    pub fn accepted(&self) -> Vec<u8> {
+        match self.kind {
+            0 => self.sink[..self.sink.len() - self.wr.len()].to_vec(),
+            1 => self.vec.clone(),
+            _ => self.sink2[..(self.curw.position() as usize).min(self.sink2.len())].to_vec(),
+        }
+    }
+}
+
+impl ReadVolatile for MemEp {
+    fn read_volatile<B: BitmapSlice>(&mut self, buf: &mut VolatileSlice<B>) -> Result<usize, VErr> {
+        self.ncalls += (buf.len() > 0) as usize;
+        match self.kind {
+            0 => self.rd.read_volatile(buf),
+            1 => self.cur.read_volatile(buf),
+            _ => self.curv.read_volatile(buf),
+        }
+    }
+    fn read_exact_volatile<B: BitmapSlice>(&mut self, buf: &mut VolatileSlice<B>) -> Result<(), VErr> {
+        self.ncalls += (buf.len() > 0) as usize;
+        match self.kind {
+            0 => self.rd.read_exact_volatile(buf),
+            1 => self.cur.read_exact_volatile(buf),
+            _ => self.curv.read_exact_volatile(buf),
+        }
+    }
+}
+
+impl WriteVolatile for MemEp {
+    fn write_volatile<B: BitmapSlice>(&mut self, buf: &VolatileSlice<B>) -> Result<usize, VErr> {
+        self.ncalls += (buf.len() > 0) as usize;
+        match self.kind {
+            0 => self.wr.write_volatile(buf),
+            1 => self.vec.write_volatile(buf),
+            _ => self.curw.write_volatile(buf),
+        }
+    }
+    fn write_all_volatile<B: BitmapSlice>(&mut self, buf: &VolatileSlice<B>) -> Result<(), VErr> {
+        self.ncalls += (buf.len() > 0) as usize;
+        match self.kind {
+            0 => self.wr.write_all_volatile(buf),
+            1 => self.vec.write_all_volatile(buf),
+            _ => self.curw.write_all_volatile(buf),
+        }
+    }
+}
+
+/// one of the three endpoint kinds; forwards all four methods unchanged
+pub enum AnyEp<'a> {
+    Scripted(&'a mut Scripted),
+    Fd(&'a mut std::fs::File),
+    Mem(&'a mut MemEp),
+}
+
+impl ReadVolatile for AnyEp<'_> {
+    fn read_volatile<B: BitmapSlice>(&mut self, buf: &mut VolatileSlice<B>) -> Result<usize, VErr> {
+        match self {
+            AnyEp::Scripted(e) => e.read_volatile(buf),
+            AnyEp::Fd(e) => e.read_volatile(buf),
+            AnyEp::Mem(e) => e.read_volatile(buf),
+        }
+    }
+    fn read_exact_volatile<B: BitmapSlice>(&mut self, buf: &mut VolatileSlice<B>) -> Result<(), VErr> {
+        match self {
+            AnyEp::Scripted(e) => e.read_exact_volatile(buf),
+            AnyEp::Fd(e) => e.read_exact_volatile(buf),
+            AnyEp::Mem(e) => e.read_exact_volatile(buf),
+        }
+    }
+}
+
+impl WriteVolatile for AnyEp<'_> {
+    fn write_volatile<B: BitmapSlice>(&mut self, buf: &VolatileSlice<B>) -> Result<usize, VErr> {
+        match self {
+            AnyEp::Scripted(e) => e.write_volatile(buf),
+            AnyEp::Fd(e) => e.write_volatile(buf),
+            AnyEp::Mem(e) => e.write_volatile(buf),
+        }
+    }
+    fn write_all_volatile<B: BitmapSlice>(&mut self, buf: &VolatileSlice<B>) -> Result<(), VErr> {
+        match self {
+            AnyEp::Scripted(e) => e.write_all_volatile(buf),
+            AnyEp::Fd(e) => e.write_all_volatile(buf),
+            AnyEp::Mem(e) => e.write_all_volatile(buf),
+        }
+    }
+}
+
 pub fn gen_script(max: u32) -> Vec<Beh> {
     let c = cx();
     let len = c.a(max + 1) as usize;
@@ -121,8 +258,9 @@ pub fn gen_script(max: u32) -> Vec<Beh> {
             5 if mask & 4 != 0 => Beh::Zero,
             6 if mask & 8 != 0 => Beh::Hard([ErrorKind::Other, ErrorKind::WouldBlock, ErrorKind::BrokenPipe, ErrorKind::PermissionDenied][c.a(4) as usize]),
             7 if mask & 16 != 0 => {
-                // a burst of interruptions
-                for _ in 0..c.a(4) {
+                // a burst of interruptions, now and then a long one
+                let n = if c.a(6) == 0 { 30 + c.a(40) } else { c.a(4) };
+                for _ in 0..n {
                     s.push(Beh::Intr);
                 }
                 Beh::Intr
@@ -265,7 +403,11 @@ impl Scenario for Stream {
                     (addr, gen_count(room), room, room > 0)
                 }
             };
-            let script = gen_script(8);
+            // endpoint: scripted stub, real descriptor under injected syscall results, or one of the
+            // crate's own in-memory adapters (fault-free apart from running dry / filling up)
+            let epk = cx().a(6);
+            let use_mem = epk == 0;
+            let script = if use_mem { Vec::new() } else { gen_script(8) };
             let stream_total = match cx().a(4) {
                 0 => cx().a(count as u32 + 1) as usize, // the stream may end early
                 _ => count + 64 + cx().a(64) as usize,
@@ -274,7 +416,8 @@ impl Scenario for Stream {
             let mut ep = Scripted::new(script.clone(), stream_total, call_cap + 40);
             // the same script can instead be played by a real descriptor whose read(2)/write(2)
             // outcomes the syscall seam decides
-            let use_fd = cx().a(3) == 0;
+            let use_fd = !use_mem && epk <= 2;
+            let mut memep = MemEp::new(cx().a(3) as u8, stream_total);
             let is_read_op = matches!(opk, OpK::ReadFrom | OpK::ReadExactFrom | OpK::DirectReadExact);
             let mut fdfile = crate::gmworld::memfd(0);
             if use_fd {
@@ -312,34 +455,22 @@ impl Scenario for Stream {
                 Layer::Slice => {
                     // SAFETY: arena memory outlives the run.
                     let vs = unsafe { VolatileSlice::new(slice_ptr, slice_len) };
-                    if use_fd {
-                        run_op(&vs, start as usize, opk, count, &mut fdfile, |v, a, n| v.get_slice(a, n).map_err(|e| format!("{:?}", e)))
-                    } else {
-                        run_op(&vs, start as usize, opk, count, &mut ep, |v, a, n| v.get_slice(a, n).map_err(|e| format!("{:?}", e)))
-                    }
+                    let mut any = if use_mem { AnyEp::Mem(&mut memep) } else if use_fd { AnyEp::Fd(&mut fdfile) } else { AnyEp::Scripted(&mut ep) };
+                    run_op(&vs, start as usize, opk, count, &mut any, |v, a, n| v.get_slice(a, n).map_err(|e| format!("{:?}", e)))
                 }
                 Layer::Region => {
                     let w = gw.as_ref().unwrap();
                     let r = w.gm.find_region(GuestAddress(w.regs[0].base)).unwrap();
-                    if use_fd {
-                        run_op(r, MemoryRegionAddress(start), opk, count, &mut fdfile, |r, a, n| {
-                            use vm_memory::GuestMemoryRegion;
-                            r.get_slice(a, n).map_err(|e| format!("{:?}", e))
-                        })
-                    } else {
-                        run_op(r, MemoryRegionAddress(start), opk, count, &mut ep, |r, a, n| {
-                            use vm_memory::GuestMemoryRegion;
-                            r.get_slice(a, n).map_err(|e| format!("{:?}", e))
-                        })
-                    }
+                    let mut any = if use_mem { AnyEp::Mem(&mut memep) } else if use_fd { AnyEp::Fd(&mut fdfile) } else { AnyEp::Scripted(&mut ep) };
+                    run_op(r, MemoryRegionAddress(start), opk, count, &mut any, |r, a, n| {
+                        use vm_memory::GuestMemoryRegion;
+                        r.get_slice(a, n).map_err(|e| format!("{:?}", e))
+                    })
                 }
                 Layer::Gm => {
                     let w = gw.as_ref().unwrap();
-                    if use_fd {
-                        run_op(&w.gm, GuestAddress(start), opk, count, &mut fdfile, |g, a, n| g.get_slice(a, n).map_err(|e| format!("{:?}", e)))
-                    } else {
-                        run_op(&w.gm, GuestAddress(start), opk, count, &mut ep, |g, a, n| g.get_slice(a, n).map_err(|e| format!("{:?}", e)))
-                    }
+                    let mut any = if use_mem { AnyEp::Mem(&mut memep) } else if use_fd { AnyEp::Fd(&mut fdfile) } else { AnyEp::Scripted(&mut ep) };
+                    run_op(&w.gm, GuestAddress(start), opk, count, &mut any, |g, a, n| g.get_slice(a, n).map_err(|e| format!("{:?}", e)))
                 }
             };
             cx().op_end(step as u64, 0);
@@ -378,12 +509,27 @@ impl Scenario for Stream {
                     ep.accepted = got;
                 }
                 cx().count("cell.endpoint_descriptor");
+            } else if use_mem {
+                // what left the reader / reached the writer is read off the adapter itself
+                let moved_mem = if is_read_op { memep.consumed() } else { memep.accepted().len() };
+                if moved_mem > 0 {
+                    ep.calls.push(Call { buf_len: count, buf_addr: 0, beh: if moved_mem >= count { Beh::Full } else { Beh::Short(count - moved_mem) }, n: moved_mem });
+                }
+                if moved_mem < count && matches!(res, Res::Err(..)) && memep.ncalls > 0 {
+                    // the adapter ran dry / filled up: a zero-byte answer
+                    ep.calls.push(Call { buf_len: count - moved_mem, buf_addr: 0, beh: Beh::Zero, n: 0 });
+                    cx().count("fault.memory_adapter_ran_dry_or_full");
+                }
+                if !is_read_op {
+                    ep.accepted = memep.accepted();
+                }
+                cx().count("cell.endpoint_memory_adapter");
             } else {
                 cx().count("cell.endpoint_scripted");
             }
-            let desc = format!("{:?} {:?} {} start={:#x} count={} room={} stream_len={} script={:?} -> {:?} after {} endpoint call(s)", layer, opk, if use_fd { "descriptor" } else { "scripted" }, start, count, room, stream_total, script, res, ep.calls.len());
+            let desc = format!("{:?} {:?} {} start={:#x} count={} room={} stream_len={} script={:?} -> {:?} after {} endpoint call(s)", layer, opk, if use_mem { memep.name(is_read_op) } else if use_fd { "descriptor" } else { "scripted" }, start, count, room, stream_total, script, res, ep.calls.len());
             log.push(desc.clone());
-            if script.iter().any(|b| *b != Beh::Full) {
+            if script.iter().any(|b| *b != Beh::Full) || (use_mem && stream_total < count) {
                 faults_seen = true;
             }
             // ----- oracle ------------------------------------------------------------------------
